@@ -302,6 +302,7 @@ prop('C13', [
     domain.r_rebuild,
     role.r_spaces,
     models.r_operations,
+    models.r_autoref_image,
 ],
     'references of the two operands of _image (different variable '
     'spaces under vmap) are never compared with each other; '
@@ -438,8 +439,10 @@ MODEL_TEXT = {
            'and quantifier on two managers over three variables against '
            'truth tables; `autoref.BDD.apply` under five node numberings.',
     'C04': ' Models: `let` with function values (528 substitutions, among '
-           'them constants and low node numbers) and with Boolean values '
-           '(288 cofactors) against truth tables.',
+           'them constants and low node numbers), with Boolean values '
+           '(288 cofactors) and with variables for variables (272 '
+           'renamings: swaps, cycles, two variables to one) against '
+           'truth tables.',
     'C05': ' Models: the shared translator bound to the manager of each '
            'call and reset after it; identifiers that begin with a '
            'keyword probed through the source-level lexer.',
@@ -466,7 +469,9 @@ MODEL_TEXT = {
     'C13': ' Models: `image` (any order, also nested non-adjacent pairs) '
            'and `preimage` (adjacent pairs) on managers over four '
            'variables against rename / conjoin / quantify on truth '
-           'tables.',
+           'tables; `autoref.image` / `preimage` interpreted together '
+           'with the handle class and the integer manager, also with '
+           'nothing quantified or nothing renamed.',
     'C14': ' Models: `add_var` for every (name, level) request on five '
            'managers; `undeclare_vars` for every subset on five managers; '
            '`BDD(levels)`; `copy_vars`.',
@@ -491,9 +496,7 @@ NOT_DECIDED = {
     'C02': 'the "iff" beyond the small models (global induction over the '
            'node table); histories of operations.',
     'C03': 'quantification on diagrams beyond the three-variable models.',
-    'C04': 'substitution on diagrams beyond the three-variable models; '
-           'renaming to variables outside the support (decided by the '
-           'structural rules only).',
+    'C04': 'substitution on diagrams beyond the three-variable models.',
     'C07': 'managers with more than three (swap) or four (drivers) '
            'variables; sifting by set order of the names.',
     'C10': 'counts and enumerations on diagrams beyond the '
